@@ -91,3 +91,35 @@ def branch_name(node, names):
     if n["k"] in ("record", "enum", "fixed"):
         return n["name"]
     return n["k"]
+
+
+def default_value(node, j, names, depth=0):
+    """the value a JSON default denotes for a field of the given type (specification: bytes and fixed defaults are
+    JSON strings whose code points 0-255 are the byte values; a union default belongs to the first branch; records,
+    arrays and maps recursively).  Anything that does not have the expected JSON shape is returned unchanged."""
+    n = deref(node, names)
+    k = n["k"]
+    if depth > 8:
+        return j
+    if k in ("bytes", "fixed"):
+        if isinstance(j, str):
+            try:
+                return j.encode("latin-1")
+            except UnicodeEncodeError:
+                return j
+        return j
+    if k == "array" and isinstance(j, list):
+        return [default_value(n["items"], x, names, depth + 1) for x in j]
+    if k == "map" and isinstance(j, dict):
+        return {key: default_value(n["values"], x, names, depth + 1) for key, x in j.items()}
+    if k == "union" and n["branches"]:
+        return default_value(n["branches"][0], j, names, depth + 1)
+    if k == "record" and isinstance(j, dict):
+        out = {}
+        for f in n["fields"]:
+            if f["name"] in j:
+                out[f["name"]] = default_value(f["t"], j[f["name"]], names, depth + 1)
+            elif f["has_default"]:
+                out[f["name"]] = default_value(f["t"], f["default"], names, depth + 1)
+        return out
+    return j
